@@ -106,6 +106,13 @@ pub fn handle(op: &str, req: &Value) -> Option<Value> {
             let r = if req["statement"].as_str() == Some("tx_delete") { e.tx_delete(tx, "people", cond) } else { e.tx_update(tx, "people", cond, HashMap::from([("age".to_string(), RV::Int(99))])) };
             if let Err(err) = r { return Some(json!({"error": err.to_string()})); }
             let _ = e.commit(tx);
+            // a second update assigns the value some of the matching rows already hold
+            if req["statement"].as_str() != Some("tx_delete") {
+                let tx2 = e.begin_transaction();
+                let r2 = e.tx_update(tx2, "people", Condition::Ge("age".to_string(), RV::Int(40)), HashMap::from([("age".to_string(), RV::Int(99))]));
+                if let Err(err) = r2 { return Some(json!({"error": err.to_string()})); }
+                let _ = e.commit(tx2);
+            }
             let all = e.select("people", Condition::True).unwrap_or_default();
             let age = |r: &relational_engine::Row| match r.get("age") { Some(RV::Int(v)) => *v, _ => -1 };
             let mut bad: Vec<String> = vec![];
